@@ -54,6 +54,120 @@ func runAddr(line, tF string) core.Outcome {
 	return o
 }
 
+func runNorm(line, tF string) core.Outcome {
+	t, err := core.UnHex(tF)
+	if err != nil || core.Hex(t) != tF {
+		return core.Outcome{Impl: "bad-op", Tags: []string{"bad-op", "trivial"}}
+	}
+	for i := 0; i < len(t); i++ {
+		if t[i] >= 128 {
+			return core.Outcome{Impl: "bad-op", Tags: []string{"bad-op", "trivial"}}
+		}
+	}
+	o := core.Outcome{}
+	func() {
+		defer func() {
+			if p := recover(); p != nil {
+				o.Impl = "panic"
+				o.Failures = append(o.Failures, core.Failure{Case: line, Class: "parse-address-panic", What: fmt.Sprintf("ParseAddress(%q).Normalize() panicked: %v", t, p)})
+			}
+		}()
+		a, err := httpcaddyfile.ParseAddress(t)
+		if err != nil {
+			o.Impl = "err"
+			o.Tags = append(o.Tags, "norm:err")
+			return
+		}
+		if strings.Contains(strings.TrimSpace(a.Host), ":") {
+			o.Impl = "v6"
+			o.Tags = append(o.Tags, "norm:v6", "trivial")
+			return
+		}
+		n := a.Normalize()
+		o.Impl = "ok " + core.Hex(n.Scheme) + " " + core.Hex(n.Host) + " " + core.Hex(n.Port) + " " + core.Hex(n.Path)
+		// oracle (implementation alone): normalising again changes nothing
+		if n2 := n.Normalize(); n2.Scheme != n.Scheme || n2.Host != n.Host || n2.Port != n.Port || n2.Path != n.Path {
+			o.Failures = append(o.Failures, core.Failure{Case: line, Class: "normalize-not-idempotent", What: fmt.Sprintf("%q: %+v then %+v", t, n, n2)})
+		}
+		if n.Host != a.Host || n.Scheme != a.Scheme {
+			o.Tags = append(o.Tags, "norm:changed")
+		} else {
+			o.Tags = append(o.Tags, "norm:same")
+		}
+	}()
+	return o
+}
+
+var hpPathRe = regexp.MustCompile(`^[a-z0-9/*._-]+$`)
+var hpMatchRe = regexp.MustCompile(`"match":\[\{"path":\["([^"]*)"\]\}\]`)
+var hpStripRe = regexp.MustCompile(`"strip_path_prefix":"([^"]*)"`)
+
+func runHp(line, tF string) core.Outcome {
+	t, err := core.UnHex(tF)
+	if err != nil || core.Hex(t) != tF || !hpPathRe.MatchString(t) {
+		return core.Outcome{Impl: "bad-op", Tags: []string{"bad-op", "trivial"}}
+	}
+	text := ":8080 {\n\thandle_path " + t + " {\n\t\trespond x\n\t}\n}\n"
+	o := core.Outcome{}
+	r := checkTotalDet(line, text, &o)
+	switch {
+	case r.timedOut || r.panicked:
+		o.Impl = r.verdict()
+	case r.err != nil:
+		o.Impl = "rej"
+		o.Tags = append(o.Tags, "hp:rejected")
+	default:
+		m := hpMatchRe.FindSubmatch(r.json)
+		st := hpStripRe.FindSubmatch(r.json)
+		if m == nil {
+			o.Impl = "nomatcher"
+			return o
+		}
+		strip := ""
+		if st != nil {
+			strip = string(st[1])
+		}
+		o.Impl = "ok " + core.Hex(string(m[1])) + " " + core.Hex(strip)
+		switch {
+		case strings.HasSuffix(t, "/*"):
+			o.Tags = append(o.Tags, "hp:slash-star")
+		case strings.HasSuffix(t, "*"):
+			o.Tags = append(o.Tags, "hp:star")
+		default:
+			o.Tags = append(o.Tags, "hp:exact")
+		}
+		// oracle (implementation alone): what is stripped is a prefix of what is matched
+		if !strings.HasPrefix(string(m[1]), strip) {
+			o.Failures = append(o.Failures, core.Failure{Case: line, Class: "handle-path-strips-non-prefix",
+				What: fmt.Sprintf("handle_path %s matches %q but strips %q", t, m[1], strip)})
+		}
+	}
+	return o
+}
+
+func genNormCase(r *core.Rand) string {
+	var sb strings.Builder
+	sb.WriteString(r.Pick([]string{"", "", "http://", "HTTPS://", "Http://", "{$S}://", "h{X}P://"}))
+	for k := 1 + r.Intn(4); k > 0; k-- {
+		sb.WriteString(r.Pick([]string{"A", "b", ".Test", "{$Env_X}", "{env.HOST}", "\\", "{", "}", "\\{", "\\}", "LOCALHOST", "*.", "1.2.3.4", " ", "Z", "{A}B{C", "a}B"}))
+	}
+	sb.WriteString(r.Pick([]string{"", "", ":80", ":8443", "/Path", "/P/{Q}"}))
+	return "norm " + core.Hex(sb.String())
+}
+
+func genHpCase(r *core.Rand) string {
+	var sb strings.Builder
+	sb.WriteString(r.Pick([]string{"/", "/", "/", "", "*"}))
+	for k := r.Intn(4); k > 0; k-- {
+		sb.WriteString(r.Pick([]string{"api", "a", "/", "*", "/*", "v1", ".", "-", "**", "/x/"}))
+	}
+	s := sb.String()
+	if s == "" {
+		s = "/"
+	}
+	return "hp " + core.Hex(s)
+}
+
 var alphaRe = regexp.MustCompile(`^[A-Za-z]*$`)
 var digitsRe = regexp.MustCompile(`^[0-9]{0,5}$`)
 var portOfRe = regexp.MustCompile(`:(\d+)$`)
